@@ -15,7 +15,7 @@ MARKERS = ("contiguous()", "materialize expanded", "contiguous on their last dim
            "torch.clamp(input._data, min=-torch.iinfo", "lowest integer code", "input.axis is not None:", "other.axis is not None and (other.ndim != 2",
            "torch.int16", "does not fit in 8 bits", "scale_kwargs", "not dtype.is_floating_point", "must hold one value per index", "zeropoint.shape != scale.shape",
            "other.axis not in (None, 0)", "out_scale = op(t._scale)\n", "data_ptr() % 16", ".clone()", "16-byte aligned", "in_features > 1", "inner dimension is one",
-           "in_features % 16 == 0", "by blocks of 16", "isinstance(shape[0], torch.dtype)", "cannot be applied to the codes", "dtype.itemsize == 1", "src.expand(dest.size())", "zeropoint.to(scale.dtype)", "other >= 0", "input >= 0", "or other < 0", "torch.ops.aten.detach, torch.ops.aten.clone", "memory format of a clone", "isinstance(module, QModuleMixin)", "must not be quantized again", "(input._scale > 0).all()", "for positive scales only", "len(args) > 0", "when it is not decomposed", "*args, dtype=dtype", "normalizes the strides of a single row", "if dtype == torch.uint8", "applies to the unpacked values", "is_mutable", "qbytes_inplace_fallback", "write its result back", "need a dedicated fallback", "owns its scale", "owns a copy of the data", "_data.clone()", "scale.clone()", "op_overload", "torch.ops.aten.alias,", "torch.ops.aten.squeeze,", "only implement the functional one", "quantize_like", "destinations", "written_back", "fitted", "keep = ", "with torch.no_grad():", "outside of the graph of the weights", "t1.dtype == t2.dtype", "its dtype must be the dtype of both", "needs_input_grad[1] else None", "only required to evaluate the gradient of the weights", "torch.ops.aten.diagonal,", "torch.ops.aten.unfold,", "torch.ops.aten.split_with_sizes, torch.ops.aten.unbind")
+           "in_features % 16 == 0", "by blocks of 16", "isinstance(shape[0], torch.dtype)", "cannot be applied to the codes", "dtype.itemsize == 1", "src.expand(dest.size())", "zeropoint.to(scale.dtype)", "other >= 0", "input >= 0", "or other < 0", "torch.ops.aten.detach, torch.ops.aten.clone", "memory format of a clone", "isinstance(module, QModuleMixin)", "must not be quantized again", "(input._scale > 0).all()", "for positive scales only", "len(args) > 0", "when it is not decomposed", "*args, dtype=dtype", "normalizes the strides of a single row", "if dtype == torch.uint8", "applies to the unpacked values", "is_mutable", "qbytes_inplace_fallback", "write its result back", "need a dedicated fallback", "owns its scale", "owns a copy of the data", "_data.clone()", "scale.clone()", "op_overload", "torch.ops.aten.alias,", "torch.ops.aten.squeeze,", "only implement the functional one", "quantize_like", "destinations", "written_back", "fitted", "keep = ", "with torch.no_grad():", "outside of the graph of the weights", "t1.dtype == t2.dtype", "its dtype must be the dtype of both", "needs_input_grad[1] else None", "only required to evaluate the gradient of the weights", "torch.ops.aten.diagonal,", "torch.ops.aten.unfold,", "torch.ops.aten.split_with_sizes, torch.ops.aten.unbind", "torch.ops.aten.as_strided,", "untyped_storage().nbytes()", "shares its scale:", "never reduced to the range of that part", "keep = keep | (fitted <= dest._scale)")
 
 
 def sh(*a, check=False):
